@@ -96,6 +96,7 @@ type cfgT struct {
 	win  uint64
 	chain string // "" = eth
 	env   bool
+	frac  *sdkmath.LegacyDec // nil = random slash fraction
 }
 
 func (w *world) ctx() sdk.Context { return w.s.Ctx }
@@ -987,6 +988,9 @@ func newWorld(t *testing.T, out *hx.Out, rng *rand.Rand, mode string, cfg cfgT) 
 	p.DelegateThreshold = types.NewDelegateAmount(w.thr)
 	p.DelegateMultiple = w.mult
 	p.SlashFraction = []sdkmath.LegacyDec{sdkmath.LegacyNewDecWithPrec(8, 1), sdkmath.LegacyNewDecWithPrec(5, 1), sdkmath.LegacyNewDecWithPrec(1, 3), sdkmath.LegacyZeroDec(), sdkmath.LegacyOneDec(), sdkmath.LegacyNewDecWithPrec(333333333333333333, 18)}[rng.Intn(6)]
+	if cfg.frac != nil {
+		p.SlashFraction = *cfg.frac
+	}
 	if err := w.k.SetParams(ctx, &p); err != nil {
 		t.Fatal(err)
 	}
@@ -1201,6 +1205,15 @@ func (w *world) sequence(length int) {
 				}
 				sort.Ints(ids)
 				o = ids[rng.Intn(len(ids))]
+			}
+			if rng.Intn(2) == 0 { // prefer an oracle the end-blocker took offline (it has a penalty to pay)
+				for _, rec := range w.records() {
+					if !rec.Online && rec.SlashTimes > 0 && w.k.IsProposalOracle(w.ctx(), rec.OracleAddress) {
+						o = w.oid(rec.OracleAddress)
+						w.out.Count("add:target-slashed")
+						break
+					}
+				}
 			}
 			amt := w.pickAmt()
 			if rec, ok := w.k.GetOracle(w.ctx(), w.oracles[o].AccAddress()); ok && rng.Intn(3) > 0 {
@@ -1503,7 +1516,14 @@ func runAll(t *testing.T, mode string) {
 			}
 		}
 		if i < nLife && i%9 == 8 {
+			// slash → re-join: once with the tightest multiple (the re-join fits by one unit), once with room above the stake
+			// and a penalty that is a proper part of it (what the re-joining oracle pays is penalty + new stake)
 			cfg.mult = 2
+			if i >= 9 {
+				cfg.mult = 5
+				half := sdkmath.LegacyNewDecWithPrec(5, 1)
+				cfg.frac = &half
+			}
 		}
 		if i < nLife && i%9 == 7 {
 			cfg.win = 4
